@@ -25,7 +25,7 @@ def run(run):
         dispatch_rules = None
     if dispatch_rules:
         try:
-            dispatch_rules.c14(run)
+            run.guard('c14', dispatch_rules.c14, run)
         except AnalysisBroken as e:
             # the type-level family already reports the violation; the witness machines assert their own state ids and stop
             # compiling when ids are wrong, so the dispatcher-shape rules have no facts to look at
